@@ -25,7 +25,9 @@ def run_check(cid):
 
 
 def main():
-    only = sys.argv[1:]
+    own_only = '--own-only' in sys.argv
+    only = [a for a in sys.argv[1:] if not a.startswith('--')]
+    seed = os.environ.get('VERIF_SEED', '0')
     sh(f'git -C /repo worktree remove --force {WT}')
     sh(f'git -C /repo worktree add --detach {WT} HEAD')
     rows = []
@@ -45,11 +47,16 @@ def main():
             results = {own: run_check(own)}
             detected = [own] if results[own]['exit'] == 1 else []
             for cid in ORDER:
-                if cid == own or detected:
+                if cid == own or detected or own_only:
                     continue
                 results[cid] = run_check(cid)
                 if results[cid]['exit'] == 1:
                     detected.append(cid)
+            if own_only:
+                meta.setdefault('own_check_by_seed', {})[seed] = results[own]['exit'] == 1
+                json.dump(meta, open(f'{d}/meta.json', 'w'), indent=1)
+                print(key, 'seed', seed, 'own:', results[own]['exit'], flush=True)
+                continue
             meta['matrix'] = {'repo_head': sh('git -C /repo rev-parse --short HEAD').stdout.strip(),
                               'verif_head': sh('git -C /verif rev-parse --short HEAD').stdout.strip(),
                               'detected_by': detected, 'own_check_detects': results[own]['exit'] == 1,
@@ -60,6 +67,8 @@ def main():
     finally:
         sh(f'git -C {WT} checkout -q -- .')
         sh(f'git -C /repo worktree remove --force {WT}')
+    if own_only:
+        return
     # summary
     lines = ['# Seeded changes vs. checks (quick tier)', '',
              '| id | what it breaks | needs | own check | detected by |', '|---|---|---|---|---|']
